@@ -59,84 +59,14 @@ Proof.
   rewrite skipn_len_app. clearbody l2. subst n. rewrite <- (rev_length l2). symmetry. apply firstn_len_app.
 Qed.
 
-(** ZRANGE: outside the recorded class the code's index translation is Redis' rule.
-    (The case analyses below are arranged to keep the number of arithmetic certificates small:
+(** ZRANGE / ZREVRANGE: the code's index translation is Redis' rule, for all start and stop.
+    (The case analyses are arranged to keep the number of arithmetic certificates small:
     coqchk re-checks each of them without the VM.) *)
-Theorem zrange_fwd_redis_v1 s start stop :
-  sl_length s = len (sl_nodes s) -> kf_zrange_fwd (sl_length s) start stop = false ->
-  zrange_of_v1 s start stop false = redis_slice (sl_items s) start stop.
-Proof.
-  intros E K. unfold zrange_of_v1, redis_slice, redis_range, sl_len. rewrite len_items, <- E.
-  assert (Hln : 0 <= sl_length s) by (rewrite E; apply len_nonneg).
-  destruct (Z.eqb_spec (sl_length s) 0) as [Z0|NZ].
-  - rewrite (items_nil_len0 s E Z0). destruct (if _ || _ then None else _) as [[? ?]|]; [rewrite skipn_nil, firstn_nil; reflexivity|reflexivity].
-  - set (ln := sl_length s) in *. unfold kf_zrange_fwd in K.
-    apply Bool.andb_false_iff in K. rewrite Bool.orb_false_iff, Z.ltb_ge, Z.eqb_neq, Z.leb_gt in K.
-    destruct (Z.ltb_spec start 0) as [S0|S0]; destruct (Z.ltb_spec stop 0) as [T0|T0];
-    match goal with |- (if ?c1 then _ else _) = match (if ?c2 then _ else _) with _ => _ end =>
-      assert (C : c1 = c2) by bool_eq; try rewrite C; clear C; destruct c2 eqn:Cnd end;
-    try reflexivity; cond_false Cnd;
-    rewrite rbr_items by (try exact E; lia); fold ln;
-    match goal with |- (if ?c then _ else _) = _ => assert (Cf : c = false) by (apply Z.leb_gt; lia); rewrite Cf; clear Cf end;
-    (f_equal; first [lia | f_equal; lia]).
-Qed.
-
-(** ZREVRANGE: outside the recorded classes it is Redis' rule on the reversed order *)
-Theorem zrange_rev_redis_v1 s start stop :
-  sl_length s = len (sl_nodes s) -> kf_zrange_rev (sl_length s) start stop = false ->
-  zrange_of_v1 s start stop true = redis_slice (rev (sl_items s)) start stop.
-Proof.
-  intros E K. unfold zrange_of_v1, redis_slice, redis_range, sl_len.
-  assert (Lr : len (rev (sl_items s)) = sl_length s) by (unfold len; rewrite rev_length; fold (len (sl_items s)); rewrite len_items; auto).
-  rewrite Lr.
-  assert (Ll : length (sl_items s) = Z.to_nat (sl_length s)).
-  { rewrite E, <- len_items. unfold len. lia. }
-  assert (Hln : 0 <= sl_length s) by (rewrite E; apply len_nonneg).
-  destruct (Z.eqb_spec (sl_length s) 0) as [Z0|NZ].
-  - rewrite (items_nil_len0 s E Z0). cbn [rev].
-    destruct (if _ || _ then None else _) as [[? ?]|]; [rewrite skipn_nil, firstn_nil; reflexivity|reflexivity].
-  - set (ln := sl_length s) in *. unfold sat_sub.
-    rewrite !(Z.max_r 0 (ln - 1)) by lia.
-    (* the code's clamped indices *)
-    set (si := if start <? 0 then Z.max (ln + start) 0 else start) in *.
-    set (ei := if stop <? 0 then Z.max (ln + stop) 0 else stop) in *.
-    assert (Hmin : forall x, 0 <= ln - 1 - Z.min x (ln - 1)) by (intro; lia).
-    rewrite (Z.max_r 0 (ln - 1 - Z.min ei (ln - 1))) by apply Hmin.
-    rewrite (Z.max_r 0 (ln - 1 - Z.min si (ln - 1))) by apply Hmin.
-    rewrite rbr_items by (try exact E; apply Hmin). fold ln.
-    assert (Cf : (ln <=? ln - 1 - Z.min ei (ln - 1)) = false) by (apply Z.leb_gt; unfold ei; destruct (Z.ltb_spec stop 0); lia).
-    rewrite Cf. clear Cf.
-    unfold kf_zrange_rev in K. fold si ei in K.
-    apply Bool.orb_false_iff in K. destruct K as [K1 K2]. apply Bool.andb_false_iff in K1, K2.
-    assert (K1' : si < ln \/ ei < ln - 1) by (destruct K1 as [K1|K1]; [left|right]; apply Z.leb_gt, K1).
-    assert (K2' : - ln <= stop \/ si <> 0) by (destruct K2 as [K2|K2]; [left; apply Z.ltb_ge, K2|right; apply Z.eqb_neq, K2]).
-    clear K1 K2.
-    (* Redis' indices in terms of the clamped ones *)
-    assert (Es : Z.max (if start <? 0 then start + ln else start) 0 = Z.max si 0).
-    { unfold si. destruct (Z.ltb_spec start 0); lia. }
-    rewrite Es. clear Es.
-    assert (Hsi0 : 0 <= si \/ 0 <= start) by (unfold si; destruct (Z.ltb_spec start 0); lia).
-    assert (Hs : Z.max si 0 = si) by (unfold si in *; destruct (Z.ltb_spec start 0); lia).
-    rewrite Hs. clear Hs.
-    set (e := if stop <? 0 then stop + ln else stop).
-    assert (He : ei = Z.max e 0 \/ (0 <= stop /\ ei = e)) by (unfold ei, e; destruct (Z.ltb_spec stop 0); [left; lia|right; lia]).
-    assert (Hsi1 : 0 <= si) by (unfold si; destruct (Z.ltb_spec start 0); lia).
-    assert (Hk2 : e < 0 -> si <> 0).
-    { unfold e. destruct (Z.ltb_spec stop 0); [|lia]. intro. destruct K2' as [K2|K2]; [lia|exact K2]. }
-    clearbody si ei e.
-    destruct ((e <? si) || (ln <=? si)) eqn:Cnd.
-    + apply Bool.orb_true_iff in Cnd. rewrite Z.ltb_lt, Z.leb_le in Cnd.
-      replace (Z.to_nat (Z.min (ln - 1 - Z.min si (ln - 1) + 1) ln - (ln - 1 - Z.min ei (ln - 1)))) with O by lia. reflexivity.
-    + cond_false Cnd.
-      rewrite (rev_slice (sl_items s)) by lia. rewrite Ll. f_equal; [|f_equal]; lia.
-Qed.
-
-(** the repaired translation is Redis' rule for all start and stop *)
-Theorem zrange_fwd_redis_v2 s start stop :
+Theorem zrange_fwd_redis s start stop :
   sl_length s = len (sl_nodes s) ->
-  zrange_of_v2 s start stop false = redis_slice (sl_items s) start stop.
+  zrange_of s start stop false = redis_slice (sl_items s) start stop.
 Proof.
-  intros E. unfold zrange_of_v2, redis_slice, redis_range, sl_len. rewrite len_items, <- E.
+  intros E. unfold zrange_of, redis_slice, redis_range, sl_len. rewrite len_items, <- E.
   assert (Hln : 0 <= sl_length s) by (rewrite E; apply len_nonneg).
   destruct (Z.eqb_spec (sl_length s) 0) as [Z0|NZ].
   - rewrite (items_nil_len0 s E Z0). destruct (if _ || _ then None else _) as [[? ?]|]; [rewrite skipn_nil, firstn_nil; reflexivity|reflexivity].
@@ -149,11 +79,11 @@ Proof.
     match goal with |- (if ?c then _ else _) = _ => assert (Cf : c = false) by (apply Z.leb_gt; lia); rewrite Cf; clear Cf end;
     (f_equal; first [lia | f_equal; lia]).
 Qed.
-Theorem zrange_rev_redis_v2 s start stop :
+Theorem zrange_rev_redis s start stop :
   sl_length s = len (sl_nodes s) ->
-  zrange_of_v2 s start stop true = redis_slice (rev (sl_items s)) start stop.
+  zrange_of s start stop true = redis_slice (rev (sl_items s)) start stop.
 Proof.
-  intros E. unfold zrange_of_v2, redis_slice, redis_range, sl_len.
+  intros E. unfold zrange_of, redis_slice, redis_range, sl_len.
   assert (Lr : len (rev (sl_items s)) = sl_length s) by (unfold len; rewrite rev_length; fold (len (sl_items s)); rewrite len_items; auto).
   rewrite Lr.
   assert (Ll : length (sl_items s) = Z.to_nat (sl_length s)).
@@ -171,24 +101,6 @@ Proof.
     match goal with |- rev (if ?c then _ else _) = _ => assert (Cf : c = false) by (apply Z.leb_gt; lia); rewrite Cf; clear Cf end;
     match goal with |- rev (firstn ?n (skipn ?a _)) = firstn _ _ =>
       rewrite (rev_slice (sl_items s) a n) by lia; rewrite Ll; (f_equal; first [lia | f_equal; lia]) end.
-Qed.
-
-(** the translation in force: Redis' rule outside the recorded classes (no exception once repaired) *)
-Theorem zrange_fwd_redis s start stop :
-  sl_length s = len (sl_nodes s) -> (zrange_fixed = false -> kf_zrange_fwd (sl_length s) start stop = false) ->
-  zrange_of s start stop false = redis_slice (sl_items s) start stop.
-Proof.
-  intros E K. unfold zrange_of. destruct zrange_fixed.
-  - apply zrange_fwd_redis_v2, E.
-  - apply zrange_fwd_redis_v1; auto.
-Qed.
-Theorem zrange_rev_redis s start stop :
-  sl_length s = len (sl_nodes s) -> (zrange_fixed = false -> kf_zrange_rev (sl_length s) start stop = false) ->
-  zrange_of s start stop true = redis_slice (rev (sl_items s)) start stop.
-Proof.
-  intros E K. unfold zrange_of. destruct zrange_fixed.
-  - apply zrange_rev_redis_v2, E.
-  - apply zrange_rev_redis_v1; auto.
 Qed.
 
 (** ---- databases ---- *)
@@ -262,16 +174,19 @@ Proof.
   - inversion G. apply zs_ok_nil.
 Qed.
 
-(** ZADD of one pair at the engine: the stored set becomes [zs_add] of the old one *)
+(** ZADD of one pair at the engine: NaN is refused; otherwise the stored set becomes [zs_add] of the old one *)
+Lemma eng_zadd_nan d key m sc : f_is_nan sc = true -> eng_zadd d key m sc = EErr.
+Proof. intro H. unfold eng_zadd. rewrite H. reflexivity. Qed.
+
 Theorem eng_zadd_spec d key m sc : db_zok d -> f_is_nan sc = false ->
   match zget d key with
-  | None => eng_zadd d key m sc = None
-  | Some z => exists d', eng_zadd d key m sc = Some (is_none (zs_lookup m z), d') /\
+  | None => eng_zadd d key m sc = EWrongType
+  | Some z => exists d', eng_zadd d key m sc = EOk (is_none (zs_lookup m z), d') /\
                          zget d' key = Some (zs_add m sc z) /\
                          (forall k', k' <> key -> get_entry d' k' = get_entry d k') /\ db_zok d'
   end.
 Proof.
-  intros D Hs. pose proof (zget_some d key) as ZS. unfold zget in *. unfold eng_zadd.
+  intros D Hs. pose proof (zget_some d key) as ZS. unfold zget in *. unfold eng_zadd. rewrite Hs.
   destruct (get_entry d key) as [e|] eqn:E.
   - destruct (e_val e) eqn:V; try reflexivity.
     specialize (ZS z eq_refl D). destruct (insert_stored z m sc ZS Hs) as [E1 E2]. rewrite E1, E2.
@@ -325,16 +240,13 @@ Proof.
 Qed.
 
 (** ---- every command preserves the database invariant ---- *)
-Definition oracle_nonan (oracle : option frame) : Prop :=
-  forall i b, oscore oracle i = Some b -> f_is_nan b = false.
-
 Lemma float_arg_oscore parts oracle i b : float_arg parts oracle i = Some b -> oscore oracle i = Some b.
 Proof. unfold float_arg. destruct (nth_error parts i) as [[]|]; try discriminate. auto. Qed.
 
-Lemma eng_zadd_zok d key m sc b d' : db_zok d -> f_is_nan sc = false ->
-  eng_zadd d key m sc = Some (b, d') -> db_zok d'.
+Lemma eng_zadd_zok d key m sc b d' : db_zok d -> eng_zadd d key m sc = EOk (b, d') -> db_zok d'.
 Proof.
-  intros D Hs E. pose proof (eng_zadd_spec d key m sc D Hs) as S.
+  intros D E. destruct (f_is_nan sc) eqn:Hs; [rewrite (eng_zadd_nan d key m sc Hs) in E; discriminate|].
+  pose proof (eng_zadd_spec d key m sc D Hs) as S.
   destruct (zget d key); [|congruence]. destruct S as (d'' & E' & _ & _ & D'). rewrite E in E'. inversion E'. subst. exact D'.
 Qed.
 Lemma eng_zrem_zok d key m b d' : db_zok d -> eng_zrem d key m = Some (b, d') -> db_zok d'.
@@ -343,36 +255,46 @@ Proof.
   destruct (zget d key); [|congruence]. destruct S as (d'' & E' & _ & _ & _ & D'). rewrite E in E'. inversion E'. subst. exact D'.
 Qed.
 
-Lemma eng_zincrby_zok d key m inc sum r d' : db_zok d -> f_is_nan inc = false ->
-  (forall x, sum = Some x -> f_is_nan x = false) ->
-  eng_zincrby d key m inc sum = Some (r, d') -> db_zok d'.
+(** ZINCRBY at the engine: whatever sum the oracle reports, only a non-NaN score is stored *)
+Theorem eng_zincrby_spec d key m inc sum : db_zok d ->
+  match eng_zincrby d key m inc sum with
+  | EOk (v, d') => f_is_nan v = false /\ db_zok d' /\
+                   exists z, zget d key = Some z /\ zget d' key = Some (zs_add m v z) /\
+                             (zs_lookup m z = None -> v = inc) /\ (zs_lookup m z <> None -> sum = Some v)
+  | EWrongType => zget d key = None /\ f_is_nan inc = false
+  | EErr => True
+  end.
 Proof.
-  intros D Hi Hs. unfold eng_zincrby. destruct (get_entry d key) as [e|] eqn:E.
-  - destruct (e_val e) eqn:V; try discriminate.
+  intros D. unfold eng_zincrby, zget. destruct (f_is_nan inc) eqn:Hi; [exact I|].
+  destruct (get_entry d key) as [e|] eqn:E.
+  - destruct (e_val e) eqn:V; try (split; reflexivity).
     destruct (D key e z E V) as [Z NE].
-    set (ns := match sl_get_score (z2sl z) m with Some _ => sum | None => Some inc end).
-    assert (Hns : forall x, ns = Some x -> f_is_nan x = false).
-    { unfold ns. destruct (sl_get_score (z2sl z) m); [exact Hs|]. intros x Hx. inversion Hx. subst. exact Hi. }
-    destruct ns as [v|]; [|intro H; inversion H; subst; exact D].
-    destruct (insert_stored z m v Z (Hns v eq_refl)) as [E1 E2]. rewrite E1, E2.
-    intro H. inversion H. subst. apply db_zok_put; [exact D|apply zs_add_ok; auto|apply zs_add_nonnil].
+    unfold sl_get_score. cbn [z2sl sl_index]. rewrite alookup_zs_lookup.
+    destruct (zs_lookup m z) as [old|] eqn:L.
+    + destruct sum as [v|]; [|exact I]. destruct (f_is_nan v) eqn:Hv; [exact I|].
+      destruct (insert_stored z m v Z Hv) as [E1 E2]. rewrite E1, E2.
+      split; [exact Hv|]. split; [apply db_zok_put; [exact D|apply zs_add_ok; auto|apply zs_add_nonnil]|].
+      exists z. split; [reflexivity|]. split; [rewrite get_put, beq_refl; reflexivity|]. split; [congruence|reflexivity].
+    + rewrite Hi. destruct (insert_stored z m inc Z Hi) as [E1 E2]. rewrite E1, E2.
+      split; [exact Hi|]. split; [apply db_zok_put; [exact D|apply zs_add_ok; auto|apply zs_add_nonnil]|].
+      exists z. split; [reflexivity|]. split; [rewrite get_put, beq_refl; reflexivity|]. split; [reflexivity|congruence].
   - rewrite sl_new_of_items, <- z2sl_eq. destruct (insert_stored [] m inc zs_ok_nil Hi) as [E1 E2]. rewrite E1, E2.
-    intro H. inversion H. subst. apply db_zok_put; [exact D|apply zs_add_ok; [apply zs_ok_nil|assumption]|apply zs_add_nonnil].
+    split; [exact Hi|]. split; [apply db_zok_put; [exact D|apply zs_add_ok; [apply zs_ok_nil|assumption]|apply zs_add_nonnil]|].
+    exists []. split; [reflexivity|]. split; [rewrite get_put, beq_refl; reflexivity|]. split; [reflexivity|cbn; congruence].
 Qed.
-
-Lemma zadd_pairs_zok key parts oracle : oracle_nonan oracle ->
+Lemma eng_zincrby_zok d key m inc sum v d' : db_zok d -> eng_zincrby d key m inc sum = EOk (v, d') -> db_zok d'.
+Proof. intros D E. pose proof (eng_zincrby_spec d key m inc sum D) as S. rewrite E in S. tauto. Qed.
+Lemma zadd_pairs_zok key parts oracle :
   forall n rest, (length rest <= n)%nat -> forall d i added, db_zok d ->
   db_zok (snd (zadd_pairs d key parts oracle i rest added)).
 Proof.
-  intros O. induction n as [|n IH]; intros rest Hl d i added D.
+  induction n as [|n IH]; intros rest Hl d i added D.
   - destruct rest; [exact D|cbn in Hl; lia].
   - destruct rest as [|sc [|mb rest']]; cbn [zadd_pairs snd]; try exact D.
     destruct (float_arg parts oracle i) as [score|] eqn:F; [|exact D].
     destruct mb; try exact D.
-    destruct (nan_refused && f_is_nan score); [exact D|].
-    destruct (eng_zadd d key b score) as [[isn d']|] eqn:EZ; [|exact D].
-    apply IH; [cbn [length] in Hl; lia|].
-    eapply eng_zadd_zok; eauto. apply (O i). apply float_arg_oscore in F. exact F.
+    destruct (eng_zadd d key b score) as [[isn d']| |] eqn:EZ; try exact D.
+    apply IH; [cbn [length] in Hl; lia|]. eapply eng_zadd_zok; eauto.
 Qed.
 
 Lemma zrem_members_zok key : forall ms d removed, db_zok d -> db_zok (snd (zrem_members d key ms removed)).
@@ -397,17 +319,16 @@ Qed.
 Ltac ro := repeat match goal with |- context [match ?x with _ => _ end] => destruct x end; cbn [snd]; auto.
 
 Theorem exec_zsets_zok now d name parts oracle r d' :
-  db_zok d -> oracle_nonan oracle ->
-  exec_zsets now d name parts oracle = Some (r, d') -> db_zok d'.
+  db_zok d -> exec_zsets now d name parts oracle = Some (r, d') -> db_zok d'.
 Proof.
-  intros D O. unfold exec_zsets.
+  intros D. unfold exec_zsets.
   repeat match goal with |- context [if beq name ?c then _ else _] => destruct (beq name c) end;
   try discriminate; intro H; inversion H as [H']; clear H.
   - (* ZADD *) unfold h_zadd in H'.
     destruct ((nparts parts <? 4) || negb (nparts parts mod 2 =? 0)); [inversion H'; subst; exact D|].
     destruct (nth_error parts 1) as [[]|]; try (inversion H'; subst; exact D).
-    destruct (nan_refused && negb (zadd_valid parts oracle 2 (skipn 2 parts))); [inversion H'; subst; exact D|].
-    pose proof (zadd_pairs_zok b parts oracle O (length (skipn 2 parts)) (skipn 2 parts) (le_n _) d 2%nat 0 D) as Z.
+    destruct (negb (zadd_valid parts oracle 2 (skipn 2 parts))); [inversion H'; subst; exact D|].
+    pose proof (zadd_pairs_zok b parts oracle (length (skipn 2 parts)) (skipn 2 parts) (le_n _) d 2%nat 0 D) as Z.
     rewrite H' in Z. exact Z.
   - (* ZREM *) unfold h_zrem in H'. destruct (nparts parts <? 3); [inversion H'; subst; exact D|].
     destruct (nth_error parts 1) as [[]|]; try (inversion H'; subst; exact D).
@@ -426,16 +347,8 @@ Proof.
     destruct (nth_arg parts 1) as [key|]; [|inversion H'; subst; exact D].
     destruct (float_arg parts oracle 2) as [inc|] eqn:F; [|inversion H'; subst; exact D].
     destruct (nth_arg parts 3) as [m|]; [|inversion H'; subst; exact D].
-    destruct (nan_refused && f_is_nan inc); [inversion H'; subst; exact D|].
-    destruct (eng_zincrby d key m inc (oscore oracle 4)) as [[[v|] d1]|] eqn:E; [| |inversion H'; subst; exact D].
-    + assert (db_zok d1) as D1.
-      { eapply eng_zincrby_zok; [exact D| |intros x Hx; apply (O 4%nat); exact Hx|exact E].
-        apply (O 2%nat). apply float_arg_oscore in F. exact F. }
-      destruct (nan_refused && f_is_nan v); inversion H'; subst; assumption.
-    + assert (db_zok d1) as D1.
-      { eapply eng_zincrby_zok; [exact D| |intros x Hx; apply (O 4%nat); exact Hx|exact E].
-        apply (O 2%nat). apply float_arg_oscore in F. exact F. }
-      destruct nan_refused; inversion H'; subst; assumption.
+    destruct (eng_zincrby d key m inc (oscore oracle 4)) as [[v d1]| |] eqn:E; inversion H'; subst; try exact D.
+    eapply eng_zincrby_zok; eauto.
   - (* ZPOPMIN *) unfold h_zpop in H'.
     destruct ((nparts parts <? 2) || (3 <? nparts parts)); [inversion H'; subst; exact D|].
     destruct (nth_arg parts 1) as [key|]; [|inversion H'; subst; exact D].
@@ -463,13 +376,24 @@ Fixpoint run_zcmds (d : db) (cmds : list zcmd) : db :=
       | None => run_zcmds d r
       end
   end.
-Theorem run_zcmds_zok cmds : forall d, db_zok d ->
-  Forall (fun c : zcmd => oracle_nonan (snd c)) cmds -> db_zok (run_zcmds d cmds).
+Theorem run_zcmds_zok cmds : forall d, db_zok d -> db_zok (run_zcmds d cmds).
 Proof.
-  induction cmds as [|[[name parts] oracle] r IH]; intros d D F; cbn [run_zcmds]; [exact D|].
-  inversion F as [|? ? Hc Fr]; subst. cbn [snd] in Hc.
+  induction cmds as [|[[name parts] oracle] r IH]; intros d D; cbn [run_zcmds]; [exact D|].
   destruct (exec_zsets 0 d name parts oracle) as [[rp d']|] eqn:E; [|auto].
-  apply IH; [|exact Fr]. eapply exec_zsets_zok; eauto.
+  apply IH. eapply exec_zsets_zok; eauto.
+Qed.
+
+(** "a score that is not a number is never stored": after any history, whatever the oracle
+    reported for parses and sums, no member of any sorted set has a NaN score *)
+Theorem no_nan_stored cmds key m sc :
+  eng_zscore (run_zcmds empty_db cmds) key m = Some (Some sc) -> f_is_nan sc = false.
+Proof.
+  pose proof (run_zcmds_zok cmds empty_db db_zok_empty) as D. set (d := run_zcmds empty_db cmds) in *.
+  unfold eng_zscore, with_zset. destruct (get_entry d key) as [e|] eqn:E; [|discriminate].
+  destruct (e_val e) eqn:V; try discriminate. intro H. inversion H as [H'].
+  unfold sl_get_score in H'. cbn [z2sl sl_index] in H'. rewrite alookup_zs_lookup in H'.
+  destruct (D key e z E V) as [(_ & _ & F) _]. apply zs_lookup_some_In in H'.
+  unfold zs_nonan in F. rewrite Forall_forall in F. apply (F _ H').
 Qed.
 
 (** ---- reads against the specification ---- *)
@@ -486,18 +410,18 @@ Lemma z2sl_items z : sl_items (z2sl z) = z.
 Proof. apply sl_of_items_items. Qed.
 
 Theorem eng_zrange_spec d key z start stop :
-  zget d key = Some z -> (zrange_fixed = false -> kf_zrange_fwd (len z) start stop = false) ->
+  zget d key = Some z ->
   eng_zrange d key start stop false = Some (redis_slice z start stop).
 Proof.
-  intros G K. unfold eng_zrange. rewrite (with_zset_zget d key [] _ z G) by reflexivity.
-  f_equal. rewrite <- (z2sl_items z) at 2. apply zrange_fwd_redis; [apply z2sl_length|exact K].
+  intros G. unfold eng_zrange. rewrite (with_zset_zget d key [] _ z G) by reflexivity.
+  f_equal. rewrite <- (z2sl_items z) at 2. apply zrange_fwd_redis, z2sl_length.
 Qed.
 Theorem eng_zrevrange_spec d key z start stop :
-  zget d key = Some z -> (zrange_fixed = false -> kf_zrange_rev (len z) start stop = false) ->
+  zget d key = Some z ->
   eng_zrange d key start stop true = Some (redis_slice (rev z) start stop).
 Proof.
-  intros G K. unfold eng_zrange. rewrite (with_zset_zget d key [] _ z G) by reflexivity.
-  f_equal. rewrite <- (z2sl_items z) at 2. apply zrange_rev_redis; [apply z2sl_length|exact K].
+  intros G. unfold eng_zrange. rewrite (with_zset_zget d key [] _ z G) by reflexivity.
+  f_equal. rewrite <- (z2sl_items z) at 2. apply zrange_rev_redis, z2sl_length.
 Qed.
 
 Lemma redis_slice_all {A} (l : list A) : redis_slice l 0 (-1) = l.
@@ -510,11 +434,7 @@ Proof.
 Qed.
 Lemma eng_zrange_all d key z : zget d key = Some z -> eng_zrange d key 0 (-1) false = Some z.
 Proof.
-  intro G. destruct z as [|x z'].
-  - unfold eng_zrange. rewrite (with_zset_zget d key [] _ [] G) by reflexivity. reflexivity.
-  - rewrite (eng_zrange_spec d key (x :: z') 0 (-1) G).
-    + rewrite redis_slice_all. reflexivity.
-    + intros _. unfold kf_zrange_fwd. assert (0 < len (x :: z')) by (unfold len; cbn; lia). brk; try reflexivity; lia.
+  intro G. rewrite (eng_zrange_spec d key z 0 (-1) G), redis_slice_all. reflexivity.
 Qed.
 
 Theorem eng_zrank_spec d key z m : db_zok d -> zget d key = Some z ->
@@ -594,28 +514,56 @@ Proof.
   destruct (e_val e); try reflexivity. discriminate.
 Qed.
 
-(** an error reply leaves the database unchanged - for every command except a
-    multi-pair ZADD (class zadd-partial) *)
-Theorem exec_zsets_failure_atomic now d name parts oracle r d' :
-  db_zok d -> (beq name (bs "ZADD") = true -> nparts parts = 4) ->
-  exec_zsets now d name parts oracle = Some (r, d') -> is_error r = true -> d' = d.
+(** a validated ZADD on a sorted set (or a missing key) cannot fail any more ... *)
+Lemma zadd_valid_float parts oracle i sc mb rest :
+  zadd_valid parts oracle i (sc :: mb :: rest) = true ->
+  exists score m, float_arg parts oracle i = Some score /\ f_is_nan score = false /\ mb = FBulk m /\
+                  zadd_valid parts oracle (S (S i)) rest = true.
 Proof.
-  intros D A. unfold exec_zsets.
+  cbn [zadd_valid]. destruct (float_arg parts oracle i) as [score|]; [|discriminate].
+  intro H. apply andb_prop in H as [H1 H2]. apply negb_true_iff in H1.
+  destruct mb; try discriminate. eauto 8.
+Qed.
+Lemma zadd_pairs_noerr key parts oracle :
+  forall n rest, (length rest <= n)%nat -> forall d i added z, db_zok d -> zget d key = Some z ->
+  zadd_valid parts oracle i rest = true ->
+  exists k, fst (zadd_pairs d key parts oracle i rest added) = r_int k.
+Proof.
+  induction n as [|n IH]; intros rest Hl d i added z D G V.
+  - destruct rest; [eexists; reflexivity|cbn in Hl; lia].
+  - destruct rest as [|sc [|mb rest']]; try (eexists; reflexivity).
+    destruct (zadd_valid_float _ _ _ _ _ _ V) as (score & m & F & Hs & -> & V').
+    cbn [zadd_pairs]. rewrite F.
+    pose proof (eng_zadd_spec d key m score D Hs) as S. rewrite G in S.
+    destruct S as (d' & E & G' & _ & D'). rewrite E.
+    eapply IH; eauto. cbn [length] in Hl. lia.
+Qed.
+(** ... and on a key of another type it fails at once, having changed nothing *)
+Lemma zadd_pairs_wrongtype key parts oracle i rest added d :
+  zget d key = None -> zadd_valid parts oracle i rest = true ->
+  snd (zadd_pairs d key parts oracle i rest added) = d.
+Proof.
+  intros G V. destruct rest as [|sc [|mb rest']]; try reflexivity.
+  destruct (zadd_valid_float _ _ _ _ _ _ V) as (score & m & F & Hs & -> & _).
+  cbn [zadd_pairs]. rewrite F. unfold eng_zadd. rewrite Hs.
+  unfold zget in G. destruct (get_entry d key) as [e|]; [|discriminate].
+  destruct (e_val e); try reflexivity. discriminate.
+Qed.
+
+(** an error reply leaves the database unchanged - for every command, a multi-member ZADD included *)
+Theorem exec_zsets_failure_atomic now d name parts oracle r d' :
+  db_zok d -> exec_zsets now d name parts oracle = Some (r, d') -> is_error r = true -> d' = d.
+Proof.
+  intros D. unfold exec_zsets.
   destruct (beq name (bs "ZADD")) eqn:NA.
-  { (* single-pair ZADD *)
-    specialize (A eq_refl). intro H. inversion H as [H']. clear H. unfold h_zadd in H'. rewrite A in H'.
-    cbn [Z.ltb Z.compare Pos.compare Pos.compare_cont orb negb] in H'.
-    change ((4 mod 2 =? 0)) with true in H'. cbn [negb] in H'.
+  { intro H. inversion H as [H']. clear H. unfold h_zadd in H'.
+    destruct ((nparts parts <? 4) || negb (nparts parts mod 2 =? 0)); [inversion H'; subst; reflexivity|].
     destruct (nth_error parts 1) as [[]|]; try (inversion H'; subst; reflexivity).
-    destruct (nan_refused && negb (zadd_valid parts oracle 2 (skipn 2 parts))); [inversion H'; subst; reflexivity|].
-    assert (L : length parts = 4%nat) by (unfold nparts, len in A; lia).
-    destruct parts as [|p0 [|p1 [|p2 [|p3 [|p4 ps]]]]]; cbn in L; try lia.
-    cbn [skipn zadd_pairs] in H'.
-    destruct (float_arg _ oracle 2) as [score|]; [|inversion H'; subst; reflexivity].
-    destruct p3; try (inversion H'; subst; reflexivity).
-    destruct (nan_refused && f_is_nan score); [inversion H'; subst; reflexivity|].
-    destruct (eng_zadd d b b0 score) as [[isn d1]|]; inversion H'; subst; [discriminate|reflexivity]. }
-  clear A.
+    destruct (zadd_valid parts oracle 2 (skipn 2 parts)) eqn:V; cbn [negb] in H'; [|inversion H'; subst; reflexivity].
+    destruct (zget d b) as [z|] eqn:G.
+    - destruct (zadd_pairs_noerr b parts oracle (length (skipn 2 parts)) (skipn 2 parts) (le_n _) d 2%nat 0 z D G V) as [k Ek].
+      rewrite H' in Ek. cbn [fst] in Ek. subst r. discriminate.
+    - pose proof (zadd_pairs_wrongtype b parts oracle 2%nat (skipn 2 parts) 0 d G V) as E. rewrite H' in E. intros _. exact E. }
   destruct (beq name (bs "ZREM")).
   { intro H. inversion H as [H']. clear H. unfold h_zrem in H'.
     destruct (nparts parts <? 3); [inversion H'; subst; reflexivity|].
@@ -640,17 +588,7 @@ Proof.
     destruct (nth_arg parts 1) as [key|]; [|inversion H'; subst; reflexivity].
     destruct (float_arg parts oracle 2) as [inc|]; [|inversion H'; subst; reflexivity].
     destruct (nth_arg parts 3) as [m|]; [|inversion H'; subst; reflexivity].
-    destruct (nan_refused && f_is_nan inc); [inversion H'; subst; reflexivity|].
-    destruct (eng_zincrby d key m inc (oscore oracle 4)) as [[[v|] d1]|] eqn:E; [| |inversion H'; subst; reflexivity].
-    + destruct (nan_refused && f_is_nan v); inversion H'; subst; [reflexivity|discriminate].
-    + destruct nan_refused; [inversion H'; subst; reflexivity|].
-      inversion H'; subst. intros _. revert E. unfold eng_zincrby.
-      destruct (get_entry d key) as [e|].
-      * destruct (e_val e) as [?|?|?|?|zz|?]; try discriminate.
-        destruct (match sl_get_score (z2sl zz) m with Some _ => oscore oracle 4 | None => Some inc end) as [nv|].
-        -- destruct (sl_insert (z2sl zz) m nv 0). discriminate.
-        -- intro E. inversion E. reflexivity.
-      * destruct (sl_insert sl_new m inc 0). discriminate.
+    destruct (eng_zincrby d key m inc (oscore oracle 4)) as [[v d1]| |]; inversion H'; subst; try reflexivity. discriminate.
   - (* ZPOPMIN *) unfold h_zpop in H'.
     destruct ((nparts parts <? 2) || (3 <? nparts parts)); [inversion H'; subst; reflexivity|].
     destruct (nth_arg parts 1) as [key|]; [|inversion H'; subst; reflexivity].
@@ -693,10 +631,9 @@ Definition enc_pairs (l : list elt) : list frame := flat_map (fun p => [FBulk (f
 Lemma zrange_first x z : zrange_of (z2sl (x :: z)) 0 0 false = [x].
 Proof.
   rewrite (zrange_fwd_redis (z2sl (x :: z)) 0 0 (z2sl_length _)).
-  - rewrite z2sl_items. unfold redis_slice, redis_range.
-    assert (0 < len (x :: z)) by (unfold len; cbn; lia). brk; try lia.
-    replace (Z.to_nat (Z.min 0 (len (x :: z) - 1) - Z.max 0 0 + 1)) with 1%nat by lia. reflexivity.
-  - intros _. unfold kf_zrange_fwd. cbn [z2sl sl_length]. pose proof (len_nonneg (x :: z)). brk; try reflexivity; lia.
+  rewrite z2sl_items. unfold redis_slice, redis_range.
+  assert (0 < len (x :: z)) by (unfold len; cbn; lia). brk; try lia.
+  replace (Z.to_nat (Z.min 0 (len (x :: z) - 1) - Z.max 0 0 + 1)) with 1%nat by lia. reflexivity.
 Qed.
 
 Theorem zpopmin_loop_spec key : forall fuel d acc z, db_zok d -> zget d key = Some z ->
@@ -718,18 +655,145 @@ Proof.
       rewrite E'. cbn [firstn enc_pairs flat_map fst snd app]. rewrite <- app_assoc. reflexivity.
 Qed.
 
-(** ---- witnesses of the recorded defect classes (the model reproduces the code) ---- *)
+(** ---- reachable states: the hypotheses [db_zok] of the theorems above hold after every history ---- *)
+Theorem zrem_last_member_reachable cmds key m sc :
+  let d := run_zcmds empty_db cmds in
+  zget d key = Some [(m, sc)] ->
+  exists d', h_zrem d (cmd [bs "ZREM"; key; m]) = (r_int 1, d') /\ get_entry d' key = None.
+Proof. cbv zeta. apply zrem_last_member, run_zcmds_zok, db_zok_empty. Qed.
+
+Theorem failure_atomic_reachable cmds now name parts oracle r d' :
+  exec_zsets now (run_zcmds empty_db cmds) name parts oracle = Some (r, d') -> is_error r = true ->
+  d' = run_zcmds empty_db cmds.
+Proof. apply exec_zsets_failure_atomic, run_zcmds_zok, db_zok_empty. Qed.
+
+(** no stored sorted set is ever empty: a key whose last member went away is gone *)
+Theorem no_empty_zset_stored cmds key e :
+  get_entry (run_zcmds empty_db cmds) key = Some e -> e_val e <> VZSet [].
+Proof.
+  intros G V. destruct (run_zcmds_zok cmds empty_db db_zok_empty key e [] G V) as [_ NE]. congruence.
+Qed.
+
+(** ---- NaN is refused everywhere ---- *)
+Lemma zadd_valid_nonan parts oracle : forall rest i k,
+  zadd_valid parts oracle i rest = true -> (2 * k + 1 < length rest)%nat ->
+  exists b, float_arg parts oracle (i + 2 * k) = Some b /\ f_is_nan b = false.
+Proof.
+  intros rest. remember (length rest) as n eqn:Hn. revert rest Hn.
+  induction n as [n IH] using lt_wf_ind. intros rest Hn i k V Hk.
+  destruct rest as [|sc [|mb rest']]; cbn [length] in *; try lia.
+  destruct (zadd_valid_float _ _ _ _ _ _ V) as (score & m & F & Hs & -> & V').
+  destruct k as [|k].
+  - exists score. replace (i + 2 * 0)%nat with i by lia. auto.
+  - destruct (IH (length rest')) with (rest := rest') (i := S (S i)) (k := k) as (b & Fb & Hb); try lia; auto.
+    exists b. replace (i + 2 * S k)%nat with (S (S i) + 2 * k)%nat by lia. auto.
+Qed.
+(** ZADD: a NaN score anywhere in the command refuses the whole command, nothing is added *)
+Theorem h_zadd_refuses_nan d parts oracle k b :
+  (2 + 2 * k + 1 < length parts)%nat ->
+  float_arg parts oracle (2 + 2 * k) = Some b -> f_is_nan b = true ->
+  h_zadd d parts oracle = (r_err, d).
+Proof.
+  intros Hk F Hb. unfold h_zadd.
+  destruct ((nparts parts <? 4) || negb (nparts parts mod 2 =? 0)); [reflexivity|].
+  destruct (nth_error parts 1) as [[]|]; try reflexivity.
+  destruct (zadd_valid parts oracle 2 (skipn 2 parts)) eqn:V; [|reflexivity].
+  exfalso. destruct (zadd_valid_nonan parts oracle (skipn 2 parts) 2%nat k V) as (b' & F' & Hb').
+  - rewrite skipn_length. lia.
+  - rewrite F in F'. inversion F'. subst. congruence.
+Qed.
+(** ZINCRBY: a NaN increment is refused; so is a NaN sum (see [eng_zincrby_spec]: only non-NaN is stored) *)
+Theorem eng_zincrby_refuses_nan d key m inc sum :
+  (f_is_nan inc = true -> eng_zincrby d key m inc sum = EErr) /\
+  (forall z old v, zget d key = Some z -> zs_lookup m z = Some old -> get_entry d key <> None ->
+     sum = Some v -> f_is_nan v = true -> f_is_nan inc = false -> eng_zincrby d key m inc sum = EErr).
+Proof.
+  split.
+  - intro H. unfold eng_zincrby. rewrite H. reflexivity.
+  - intros z old v G L NN -> Hv Hi. unfold eng_zincrby. rewrite Hi. unfold zget in G.
+    destruct (get_entry d key) as [e|]; [|congruence]. destruct (e_val e); try discriminate.
+    inversion G. subst. unfold sl_get_score. cbn [z2sl sl_index]. rewrite alookup_zs_lookup, L, Hv. reflexivity.
+Qed.
+(** ZRANGEBYSCORE / ZREVRANGEBYSCORE / ZCOUNT: a NaN bound is refused *)
+Lemma bound_arg_nonan parts oracle i b : bound_arg parts oracle i = Some b -> f_is_nan b = false /\ oscore oracle i = Some b.
+Proof.
+  unfold bound_arg. destruct (nth_error parts i) as [[]|]; try discriminate.
+  destruct (oscore oracle i) as [x|]; [|discriminate]. destruct (f_is_nan x) eqn:E; [discriminate|].
+  intro H. inversion H. subst. auto.
+Qed.
+Theorem nan_bound_refused d parts oracle i b :
+  (i = 2 \/ i = 3)%nat -> oscore oracle i = Some b -> f_is_nan b = true ->
+  (forall rev, h_zrangebyscore rev d parts oracle = (r_err, d)) /\ h_zcount d parts oracle = (r_err, d).
+Proof.
+  intros Hi O Hb.
+  assert (B : forall x, bound_arg parts oracle i = Some x -> False).
+  { intros x Hx. apply bound_arg_nonan in Hx as [Hn Ho]. rewrite O in Ho. inversion Ho. subst. congruence. }
+  split; [intro rev; unfold h_zrangebyscore|unfold h_zcount].
+  - destruct ((nparts parts <? 4) || (5 <? nparts parts)); [reflexivity|].
+    destruct (nth_arg parts 1); [|reflexivity].
+    destruct (bound_arg parts oracle 2) as [x|] eqn:B2; [|reflexivity].
+    destruct (bound_arg parts oracle 3) as [y|] eqn:B3; [|reflexivity].
+    exfalso. destruct Hi; subst; eauto.
+  - destruct (negb (nparts parts =? 4)); [reflexivity|].
+    destruct (nth_arg parts 1); [|reflexivity].
+    destruct (bound_arg parts oracle 2) as [x|] eqn:B2; [|reflexivity].
+    destruct (bound_arg parts oracle 3) as [y|] eqn:B3; [|reflexivity].
+    exfalso. destruct Hi; subst; eauto.
+Qed.
+
+(** ---- regression examples: the witnesses of the classes repaired in /repo (beb3269, 76804df,
+    774140b) now behave as the property demands ---- *)
 Definition oracle_of (l : list (option Z)) : option frame :=
   Some (FArray (map (fun o => match o with Some b => FDouble b | None => FNullBulk end) l)).
 Definition one_bits := 4607182418800017408.      (* 1.0 *)
 Definition two_bits := 4611686018427387904.      (* 2.0 *)
 Definition three_bits := 4613937818241073152.    (* 3.0 *)
 Definition kz := bs "z".
+Definition z3 : zset := [(bs "a", one_bits); (bs "b", two_bits); (bs "c", three_bits)].
+Definition d3 : db := put_entry empty_db kz {| e_val := VZSet z3; e_exp := None |}.
 
+(** ZADD z nan m: error, nothing stored *)
+Lemma zadd_nan_refused_example :
+  exec_zsets 0 empty_db (bs "ZADD") (cmd [bs "ZADD"; kz; bs "nan"; bs "m"])
+    (oracle_of [None; None; Some nan_bits; None]) = Some (r_err, empty_db).
+Proof. vm_compute. reflexivity. Qed.
+(** ZADD z inf m; ZINCRBY z -inf m: error (whether or not a sum is reported), score unchanged *)
+Lemma zincrby_nan_refused_example :
+  exists d1,
+    exec_zsets 0 empty_db (bs "ZADD") (cmd [bs "ZADD"; kz; bs "inf"; bs "m"])
+      (oracle_of [None; None; Some pinf_bits; None]) = Some (r_int 1, d1) /\
+    exec_zsets 0 d1 (bs "ZINCRBY") (cmd [bs "ZINCRBY"; kz; bs "-inf"; bs "m"])
+      (oracle_of [None; None; Some ninf_bits; None; None]) = Some (r_err, d1) /\
+    exec_zsets 0 d1 (bs "ZINCRBY") (cmd [bs "ZINCRBY"; kz; bs "-inf"; bs "m"])
+      (oracle_of [None; None; Some ninf_bits; None; Some nan_bits]) = Some (r_err, d1) /\
+    eng_zscore d1 kz (bs "m") = Some (Some pinf_bits).
+Proof. eexists. split; [vm_compute; reflexivity|]. repeat split; vm_compute; reflexivity. Qed.
+(** ZADD z 1 a x b: error, a not added *)
+Lemma zadd_atomic_example :
+  exec_zsets 0 empty_db (bs "ZADD") (cmd [bs "ZADD"; kz; bs "1"; bs "a"; bs "x"; bs "b"])
+    (oracle_of [None; None; Some one_bits; None; None; None]) = Some (r_err, empty_db).
+Proof. vm_compute. reflexivity. Qed.
+(** ZRANGE z 0 -100, ZREVRANGE z 0 -100, ZREVRANGE z 5 10 on three members: empty *)
+Lemma zrange_out_of_range_example :
+  zrange_of (z2sl z3) 0 (-100) false = [] /\ zrange_of (z2sl z3) 0 (-100) true = [] /\
+  zrange_of (z2sl z3) 5 10 true = [] /\ zrange_of (z2sl z3) (-100) 100 true = rev z3.
+Proof. repeat split; vm_compute; reflexivity. Qed.
+(** ZRANGEBYSCORE z nan 2 / ZCOUNT z nan 2: error *)
+Lemma nan_bound_refused_example :
+  exec_zsets 0 d3 (bs "ZRANGEBYSCORE") (cmd [bs "ZRANGEBYSCORE"; kz; bs "nan"; bs "2"])
+    (oracle_of [None; None; Some nan_bits; Some two_bits]) = Some (r_err, d3) /\
+  exec_zsets 0 d3 (bs "ZCOUNT") (cmd [bs "ZCOUNT"; kz; bs "nan"; bs "2"])
+    (oracle_of [None; None; Some nan_bits; Some two_bits]) = Some (r_err, d3).
+Proof. split; vm_compute; reflexivity. Qed.
+(** ZADD z 1 m; ZREM z m: the key is gone (was: stayed with cardinality 1 after a NaN) *)
+Lemma last_member_example :
+  exists d1, exec_zsets 0 empty_db (bs "ZADD") (cmd [bs "ZADD"; kz; bs "1"; bs "m"])
+               (oracle_of [None; None; Some one_bits; None]) = Some (r_int 1, d1) /\
+             exec_zsets 0 d1 (bs "ZREM") (cmd [bs "ZREM"; kz; bs "m"]) None = Some (r_int 1, empty_db).
+Proof. eexists. split; [vm_compute; reflexivity|]. vm_compute. reflexivity. Qed.
 
-
-
-(** F-04a at the skip-list level: a node whose score is NaN can never be unlinked ... *)
+(** ---- why the engine guards matter: the skip list itself cannot get rid of a NaN ---- *)
+(** a node whose score is NaN can never be unlinked (`value == score` is false) ... *)
 Lemma remove_nan_noop s k v : f_is_nan v = true -> remove_node_by_score s k v = s.
 Proof.
   intro H. unfold remove_node_by_score. destruct (nth_error (sl_nodes s) _) as [t|]; [|reflexivity].
@@ -737,7 +801,7 @@ Proof.
   { unfold f_eq, f_pcmp. rewrite H, Bool.orb_true_r. reflexivity. }
   rewrite Bool.andb_false_r. reflexivity.
 Qed.
-(** ... so after insert(m, NaN); remove(m) the chain keeps the node, length stays 1, the index is empty *)
+(** ... so after SkipList::insert(m, NaN); remove(m) the chain keeps the node, length stays 1, the index is empty *)
 Lemma nan_breaks_inv :
   let s := snd (sl_remove (snd (sl_insert sl_new (bs "m") nan_bits 0)) (bs "m")) in
   sl_length s = 1 /\ sl_index s = [] /\ sl_items s = [(bs "m", nan_bits)] /\ ~ Inv s.
@@ -748,23 +812,3 @@ Proof.
     by (vm_compute; left; reflexivity).
   apply H in Hin. vm_compute in Hin. discriminate.
 Qed.
-
-Definition z3 : zset := [(bs "a", one_bits); (bs "b", two_bits); (bs "c", three_bits)].
-(** F-04b: ZRANGE z 0 -100 on three members returns the first member (Redis: empty) *)
-Lemma zrange_neg_stop_witness :
-  kf_zrange_fwd 3 0 (-100) = true /\
-  zrange_of_v1 (z2sl z3) 0 (-100) false = [(bs "a", one_bits)] /\ redis_slice z3 0 (-100) = [].
-Proof. repeat split; vm_compute; reflexivity. Qed.
-(** F-04b: ZREVRANGE z 5 10 on three members returns one member (Redis: empty) *)
-Lemma zrevrange_beyond_witness :
-  kf_zrange_rev 3 5 10 = true /\
-  zrange_of_v1 (z2sl z3) 5 10 true = [(bs "a", one_bits)] /\ redis_slice (rev z3) 5 10 = [].
-Proof. repeat split; vm_compute; reflexivity. Qed.
-
-
-(** a NaN lower bound is accepted by ZRANGEBYSCORE/ZCOUNT and selects everything up to max
-    (Redis refuses NaN bounds) *)
-Lemma zrangebyscore_nan_bound_witness :
-  sl_range_by_score (z2sl z3) nan_bits two_bits = sl_nodes (z2sl [(bs "a", one_bits); (bs "b", two_bits)]) /\
-  zs_byscore nan_bits two_bits z3 = [].
-Proof. split; vm_compute; reflexivity. Qed.
